@@ -1087,6 +1087,11 @@ impl<'a> P<'a> {
         }
         let leading = sep.is_some();
         parts.push(self.ty_postfix()?);
+        if parts[0].kind == "pack" && !leading {
+            // `()` / `(A, B)` is a type pack (a return type): union / intersection / `?` belong to the enclosing type
+            self.leave();
+            return Ok(parts.pop().unwrap());
+        }
         loop {
             if self.is_sym("|") {
                 if sep == Some("intersection") {
@@ -1115,7 +1120,7 @@ impl<'a> P<'a> {
 
     fn ty_postfix(&mut self) -> R<Ty> {
         let mut t = self.ty_simple()?;
-        while self.is_sym("?") {
+        while self.is_sym("?") && t.kind != "pack" {
             self.advance();
             t = Ty { kind: "optional", text: String::new(), kids: vec![t], exprs: vec![] };
         }
